@@ -27,7 +27,7 @@ WORLD_INFO = {'real': ['cassandra.connection.Connection (process_io_buffer, _rea
                        'requester threads (harness, public Connection API)']}
 ASSUMPTIONS = ['TCP semantics: per-direction FIFO, no loss/duplication inside a live connection',
                'protocol versions 1-4, no compression (v5 segments are C06)']
-REQUIRED_PROBES = ['split_delivery', 'multi_frame_read', 'event_frames', 'empty_body_frame', 'multi_frame_write']
+REQUIRED_PROBES = ['split_delivery', 'multi_frame_read', 'event_frames', 'empty_body_frame', 'multi_frame_write', 'frame_of_other_protocol_family']
 
 SIZES = [0, 1, 7, 8, 9, 10, 63, 64, 65, 255, 256, 1000, 4095, 4096, 4097, 8192, 20000, 70000]
 
@@ -48,6 +48,10 @@ def gen_plan(rng, tier):
                      'delay': rng.choice([0, 0, 0.001, 0.002, 0.01, 0.05]),
                      'kind': rng.choice(['rows', 'rows', 'rows', 'void', 'error', 'ready']),
                      'think': rng.choice([0, 0, 0.001])})
+        if reqs[-1]['kind'] == 'error' and rng.random() < 0.25:
+            # the peer frames this error in the header layout of the other protocol family (8-byte v1/v2 header on a v3/v4 connection
+            # or 9-byte v3/v4 header on a v1/v2 connection), as servers do when they reject a protocol version
+            reqs[-1]['other_family'] = True
     events = []
     for i in range(rng.choice([0, 0, 1, 2, 4])):
         events.append({'at': rng.choice([0.0, 0.001, 0.005, 0.02, 0.06]),
@@ -99,6 +103,9 @@ class C05Peer(HandshakePeer):
         else:
             body = C.error_body(C.E_INVALID, 'err-%d-' % k + 'x' * min(spec['size'], 2000))
             op = C.ERROR
+            if spec.get('other_family') and 0 <= fr['stream'] < 128:
+                v = (4 if v == 2 else 3) if v < 3 else (2 if v == 4 else 1)
+                sim.probe('frame_of_other_protocol_family')
         stream = fr['stream']
 
         def emit():
